@@ -8,6 +8,7 @@ import (
 
 	"github.com/ProtonMail/gluon/verif/drivers"
 	"github.com/ProtonMail/gluon/verif/pkg/ev"
+	"github.com/ProtonMail/gluon/verif/pkg/fixture"
 )
 
 func main() {
@@ -15,6 +16,10 @@ func main() {
 		usage()
 	}
 	id := os.Args[1]
+	if id == "__serve" {
+		fixture.ServeChild()
+		return
+	}
 	tier := "quick"
 	replay := ""
 	for i := 2; i < len(os.Args); i++ {
